@@ -26,7 +26,7 @@ claim("C05", "Per-shape boxes of all multi-vertex constructors and the header bo
       "for all non-NaN doubles incl. +-inf, +-0, f64::MAX/MIN; the record's stored box is decoded by the independent codec.",
       "Header M range: claimed only when every measure is real data and not for multipatch (as the property states).")
 claim("C06", "Type identity for the 14 kinds; requested S x actual T matrix of typed reads against generic reads on independently encoded records with symbolic payload "
-      "(error must name S as requested and T as actual); S::try_from over all 14 variants; bulk conversion over all 8 assignments of 3 positions.",
+      "(error must name S as requested and T as actual); S::try_from over all 14 variants; bulk conversion over all 8 assignments of {Point, PointZ} and of {Point, NullShape} to 3 positions.",
       "Quick tier: diagonal + rows Point, MultipointM; thorough: all 13 rows.")
 claim("C07", "Every byte the reader looks at is symbolic: header, index, record decoders (all three point types, the multipoint family with arbitrary counts and declared size, "
       "Polyline with arbitrary part offsets), file-level iteration and random access. Kani's default checks (overflow, bounds, debug assertions, unwrap) are the property; loops driven "
@@ -57,7 +57,7 @@ claim("C19", "All 2^32 codes are covered symbolically in one SAT query per oblig
 
 claim("C03", "Files produced by the independent encoder in layouts the library's writer never emits (optional M block absent per record for M/Z/multipatch types, 24-byte PointZ, null records in a typed file and type-0 files, "
       "zero parts / zero points, empty and single-vertex parts, arbitrary ring orientation, arbitrary stored boxes and record numbers, garbage behind the declared length) must be decoded by the real reader to exactly the stored geometry; payload symbolic.",
-      "Typed iteration for all families; generic iteration for point types and null records; generic decode of multi-vertex records at Shape::read_from (Kani enum-move limitation). Structures up to 2 parts x 4 points, 3 records.")
+      "Typed iteration for all families; generic iteration for point types and null records; generic decode of multi-vertex records at Shape::read_from (Kani enum-move limitation). Structures up to 2 parts x 4 points, 3 records; multipatch part kinds: quick tier fan, inner ring, first ring, ring; thorough adds strip and outer ring.")
 claim("C08", "Write side of the pairing through the complete Writer with the real dbase::TableWriter: after histories of valid and failing write_shape_and_record calls the .shp record count, .shx entry count and .dbf row count are compared. "
       "The defect the property describes (row rejected after the shape was written) is found and listed as an open known finding.",
       "Read side (ShapeRecordIterator over dbase::Reader, Reader::seek) is OUTSIDE the claim: dbase::Reader::new did not finish symbolic execution. Only stub: the clock read for the .dbf header date.")
